@@ -117,7 +117,7 @@ def C02(ctx):
     fwd.rule_key_tables(ctx, m)
     tables.rule_inner_dist_table(ctx, m)
     tables.rule_none_zero_encoding(ctx, m)
-    with ctx.scoped(has('dtw:distance ', 'dtw:distance_fast', 'dtw_ndim:distance', 'dtw:distance_matrix', 'dtw_ndim:distance_matrix', ':distance:', ':distance_fast:')):
+    with ctx.scoped(has('dtw:distance ', 'dtw:distance_fast', 'dtw_ndim:distance', 'dtw:distance_matrix', 'dtw_ndim:distance_matrix', ':distance:', ':distance_fast:', 'DTWSettings.')):
         fwd.rule_delegation(ctx, m, ['dtaidistance.dtw', 'dtaidistance.dtw_ndim'])
     tables.rule_pyx_siblings(ctx, m)
     cshape.rule_ndim_stride(ctx, m, NDIM_FUNCS[:4])
@@ -144,8 +144,8 @@ def C03(ctx):
     with ctx.scoped(has('ndim sink', 'inner_dist_fns', 'ed.distance', 'ub_euclidean')):
         fwd.rule_use_ndim(ctx, m, CORE_PY)
     tables.rule_settings_defaults(ctx, m)
-    with ctx.scoped(has('align')):
-        pass
+    with ctx.scoped(has('DTWSettings.', 'ub_euclidean')):
+        fwd.rule_delegation(ctx, m, ['dtaidistance.dtw', 'dtaidistance.dtw_ndim'])     # the pruning bound is computed with the settings in effect
     ctx.floor('R-PRUNE', 50, '5 rolling kernels + 2 warping_paths modes')
 
 
@@ -184,6 +184,9 @@ def C05(ctx):
     wps.rule_best_path_c(ctx, m, tier=ctx.tier)
     wps.rule_best_path_moves(ctx, m)
     wps.rule_best_path_prob_moves(ctx, m)
+    for kir in (True, False):
+        with ctx.scoped(lambda r, t: r == 'R-BAND'):
+            _wp(ctx, m, kir, ['band'])          # a path traced through an out-of-band cell is not a valid warping path
     with ctx.scoped(has('dtw_wps_loc')):
         wps.rule_wps_readers(ctx, m)
     with ctx.scoped(has('warping_path', 'best_path')):
@@ -209,6 +212,7 @@ def C07(ctx):
     m = model(ctx.repo)
     iterspace.rule_omp(ctx, m)
     cshape.rule_c_reentrant(ctx, m)
+    cshape.rule_c_settings_readonly(ctx, m)      # the settings struct is shared by all threads of a region
     iterspace.rule_mp_order(ctx, m)
     with ctx.scoped(has('parallel')):
         sig.rule_pyx_to_c(ctx, m)
@@ -229,6 +233,9 @@ def C08(ctx):
     tables.rule_psi_asserts(ctx, m)
     from .rules import wps
     wps.rule_wps_bounds(ctx, m, tier=ctx.tier)
+    from .rules import bounds
+    with ctx.scoped(lambda r, t: 'lb_keogh' in t and 'dd_dtw.c' in t):
+        bounds.rule_lb_keogh(ctx, m)             # the envelope scan reads s2[imin:imax]: imax beyond l2 is an out-of-bounds read
     cshape.rule_config_invariance(ctx, m)
     with ctx.scoped(has('output slot', 'output store', 'pair counter', 'prefix-sum plan', 'row index')):
         iterspace.rule_omp(ctx, m)      # the parallel regions write output[slot]: the slot arithmetic bounds the write
@@ -318,6 +325,7 @@ def C12(ctx):
 def C13(ctx):
     m = model(ctx.repo)
     pyshape.rule_subseq_align(ctx, m)
+    cshape.rule_ndim_stride(ctx, m, NDIM_FUNCS[4:6])      # the C matrix behind use_c=True for multivariate queries
     with ctx.scoped(has('subsequencealignment')):
         sig.rule_imports(ctx, m, ['dtaidistance.subsequence.subsequencealignment'])
         sig.rule_py_to_pyx(ctx, m, ['dtaidistance.subsequence.subsequencealignment'])
@@ -341,6 +349,9 @@ def C14(ctx):
 def C15(ctx):
     m = model(ctx.repo)
     pyshape.rule_hierarchical(ctx, m)
+    # merges are decided on the distance matrix of dists_fun: pairs may only be excluded (inf) by the options' own rules
+    for F in _kernels(ctx, m):
+        kern.rule_length_diff_exit(ctx, F.name, F.file, F.prologue.events, F.amap, F.outer_line)
     ctx.floor('R-PATH', 10, 'merge loop + tree hook')
 
 
@@ -397,6 +408,7 @@ def C19(ctx):
     from .rules import mon
     mon.rule_similarity(ctx, m)
     mon.rule_squash_zero_offset(ctx, m)
+    mon.rule_default_scale(ctx, m)
     mon.rule_cover_quantile(ctx, m)
 
 
@@ -404,6 +416,7 @@ def C20(ctx):
     m = model(ctx.repo)
     pyshape.rule_py_no_input_stores(ctx, m, ALL_PY + EXTRA_PY)
     cshape.rule_c_no_input_stores(ctx, m)
+    cshape.rule_c_settings_readonly(ctx, m)
     pyshape.rule_contiguity(ctx, m, ALL_PY)
     pyshape.rule_series_container(ctx, m)
     misc.rule_optional_numpy(ctx, m, NUMPY_OPT)
